@@ -236,6 +236,7 @@ func runCodec(c *core.Ctx, keep func(*codecPair) bool) {
 		// ---- reader side
 		fieldSlots := map[string]map[string]bool{} // field path -> slots
 		allSlots := map[string]bool{}
+		fieldOrigins := map[string]map[string]bool{} // field path -> classes of every origin of the stored value
 		allocs := resultAllocs(cp.Dec)
 		var builtType *types.Struct
 		var builtNamed types.Type
@@ -249,6 +250,10 @@ func runCodec(c *core.Ctx, keep func(*codecPair) bool) {
 				}
 				for _, o := range e.TraceWire(al, path).List() {
 					collectWire(o, cp.Dec, fieldSlots[key], 0)
+					if fieldOrigins[key] == nil {
+						fieldOrigins[key] = map[string]bool{}
+					}
+					fieldOrigins[key][originClass(o, cp.Dec)] = true
 				}
 			}
 		}
@@ -435,6 +440,16 @@ func runCodec(c *core.Ctx, keep func(*codecPair) bool) {
 				continue
 			}
 			c.Ob(construct("A5 "+fp), pos, true, "assigned from "+setStr(sl))
+			// A8: the restore is lossless - nothing but the wire contributes to the restored field
+			var foreign []string
+			for k := range fieldOrigins[fp] {
+				if !strings.HasPrefix(k, "wire:") && !strings.HasPrefix(k, "CONST zero") { // a zero value: the default for an absent member
+					foreign = append(foreign, k)
+				}
+			}
+			sort.Strings(foreign)
+			c.Check(len(foreign) == 0, construct("A8 "+fp), pos, "restored from the wire alone",
+				"the restored field "+fp+" can also take a value that does not come from the wire ("+strings.Join(foreign, ", ")+"): some received values are replaced on decode, so the field is not identical after a hop")
 			if fp == causeName || sl["CAUSE"] || sl["CAUSES"] {
 				continue
 			}
@@ -581,4 +596,28 @@ func collectRecv(o *origin.Origin, out map[string]bool, depth int) {
 			collectRecv(x, out, depth+1)
 		}
 	}
+}
+
+// originClass: "wire:<slot>" for a slot of decoder d (also below conversions), otherwise kind and description.
+func originClass(o *origin.Origin, d *ssa.Function) string {
+	if o.Kind == origin.Wire && o.Decoder == d {
+		return "wire:" + slotOf(o)
+	}
+	// a derived origin (conversion, sanitising, redactable wrapping) all of whose parts are wire slots
+	var parts []*origin.Origin
+	for _, l := range [][]*origin.Origin{o.Of, o.Safe, o.Unsafe} {
+		parts = append(parts, l...)
+	}
+	if len(parts) > 0 {
+		all := true
+		for _, x := range parts {
+			if !strings.HasPrefix(originClass(x, d), "wire:") {
+				all = false
+			}
+		}
+		if all {
+			return "wire:derived"
+		}
+	}
+	return o.Kind.String() + " " + o.Desc
 }
